@@ -234,7 +234,8 @@ fn structured(reqs: &[Req], rng: &mut Rng) -> (Vec<u8>, String) {
                 name = "message-not-an-object".into();
             }
             _ => {
-                let sz = *rng.pick(&[70_000usize, 1 << 20]);
+                // well-formed but very large: sizes around plausible caps (64 KiB, 1 MiB, 4 MiB)
+                let sz = *rng.pick(&[70_000usize, 1 << 20, (1 << 20) + 7, 4_194_304 - 100, 4_194_304 + 4096, 5 << 20]);
                 v["parameters"] = json!({"token": r.token, "pad": "p".repeat(sz)});
                 name = format!("oversized-{}", sz);
             }
@@ -654,7 +655,7 @@ fn run_repo_service(ctx: &Ctx, bin_dir: &str) {
 }
 
 pub fn main(ctx: &Ctx) -> i32 {
-    ctx.set_rule("corpus of 40 valid request streams x every byte position (quick: stride 3 on long streams) x 8 byte-level operators (truncate, bit flip, delete, duplicate, insert NUL, insert invalid UTF-8, swap, insert JSON token) + structured operators (retype/remove method, retype flags/parameters, nest 1..10^4 deep balanced and unclosed, empty message, non-object message, 70 KB/1 MiB message) + random byte strings; in memory and through listen() in a child process beside a healthy pipelining neighbour; the nesting family (16..10^5 deep, arrays/objects, balanced/unclosed) also against the repository's own debug-built examples/ping service; distinct = (mutated stream hash, operator/transport); non-trivial = differs from the original and has a well-formed prefix or a complete message");
+    ctx.set_rule("corpus of 40 valid request streams x every byte position (quick: stride 3 on long streams) x 8 byte-level operators (truncate, bit flip, delete, duplicate, insert NUL, insert invalid UTF-8, swap, insert JSON token) + structured operators (retype/remove method, retype flags/parameters, nest 1..10^4 deep balanced and unclosed, empty message, non-object message, 70 KB / 1 MiB / 4 MiB / 5 MiB message) + random byte strings; in memory and through listen() in a child process beside a healthy pipelining neighbour; the nesting family (16..10^5 deep, arrays/objects, balanced/unclosed) also against the repository's own debug-built examples/ping service; distinct = (mutated stream hash, operator/transport); non-trivial = differs from the original and has a well-formed prefix or a complete message");
     ctx.assume("malformed = not UTF-8 JSON, not an object, no string method, or a non-boolean flag; duplicate top-level keys and nesting deeper than 100 are judged by containment only (skipped_unspecified)");
     ctx.assume("expected output = replies to the well-formed prefix, obtained by running that prefix alone through the same service");
     run_memory(ctx);
